@@ -24,6 +24,14 @@ inductive NodeKind where
   | even | odd
 deriving Repr, DecidableEq
 
+/-- how a struct-literal initialises a field in the `ConstDefault` impls -/
+inductive InitKind where
+  | childDefault   -- `U::DEFAULT`
+  | elemDefault    -- `T::DEFAULT`
+  | inferred       -- `ConstDefault::DEFAULT`: the default of whatever the field's type is
+  | phantom        -- `PhantomData`
+deriving Repr, DecidableEq
+
 /-- size and alignment of a type -/
 structure Lay where
   size : Nat
